@@ -547,19 +547,19 @@ func writerSinkRole(p *Prog, fn *ssa.Function, ci ssa.CallInstruction) string {
 		if isStderrWrite(com) {
 			return ""
 		}
-		return "sink:" + ownerName(fn)
+		return "sink"
 	}
 	if com.StaticCallee() == nil && !com.IsInvoke() {
 		// dynamic call of a func(any) error value: the encode closure of the formatted spreaders
 		sig := com.Signature()
 		if sig.Params().Len() == 1 && sig.Results().Len() == 1 && isErrorType(sig.Results().At(0).Type()) {
 			if _, ok := sig.Params().At(0).Type().Underlying().(*types.Interface); ok {
-				return "sink:" + ownerName(fn)
+				return "sink"
 			}
 		}
 	}
 	if com.IsInvoke() && com.Method.Name() == "Write" && isNamed(com.Value.Type(), "io", "Writer") {
-		return "sink:" + ownerName(fn)
+		return "sink"
 	}
 	return ""
 }
@@ -581,7 +581,7 @@ func ruleERR1(w *World) []Ob { return err1Obligations(w) }
 func ruleERR2(w *World) []Ob {
 	var out []Ob
 	for _, o := range w.run("ERR-1") {
-		if strings.HasPrefix(o.Role, "sink:") {
+		if o.Role == "sink" {
 			o.Rule = "ERR-2"
 			out = append(out, o)
 		}
